@@ -119,7 +119,7 @@ class ClassWorld:
                     ('touch', 1.5), ('lsp', 0.5), ('newdyn', 1.2)],
             'C13': [('new', 3), ('iset', 3), ('cset', 5), ('addp', 3), ('lsp', 3), ('getp', 2), ('inp', 1), ('vals', 2), ('repr', 1), ('touch', 1),
                     ('ecblock', 1.2),
-                    ('watchnew', 1), ('cparam', 2.5), ('poison', 1.5)],
+                    ('watchnew', 1), ('cparam', 2.5), ('poison', 1.5), ('addp_bad', 1.5)],
             'C14': [('new', 3), ('newk', 2), ('kset', 5), ('kupdate', 2), ('cset', 3), ('rset', 2), ('ec_open', 3), ('ec_close', 2.5), ('ec_close_first', 1), ('ec_raise', 1.5),
                     ('touch', 1.5), ('iset', 2), ('nameset', 1), ('kref', 1.5), ('srcset', 1.5), ('newkref', 1), ('srcset_fail', 1), ('srcset_rebind', 1), ('cname', 1), ('ec_flagwatch', 1)],
         }[prop]
@@ -149,6 +149,8 @@ class ClassWorld:
                 op['same'] = rng.random() < 0.4
             if k == 'new' or k == 'newk':
                 op['kw'] = [p for p in used if p not in ('r',) and rng.random() < 0.3]
+            if k == 'addp_bad':
+                op['via'] = rng.choice(['setattr', 'add_parameter'])
             if k == 'cparam':
                 op['via'] = rng.choice(['setattr', 'setattr', 'add_parameter'])
             if prop == 'C13':
@@ -762,6 +764,23 @@ class _Run:
                 self.probe['stale_risk'] = True
             self.classes[ci].param.add_parameter(name, param.Parameter(default=d))
             self.extra[ci][name] = d
+        elif k == 'addp_bad':
+            # a Parameter that cannot be installed: a String left without a default inherits the (non-string) default of the
+            # Parameter it would override, which it rejects; the class must be left exactly as it was
+            cand = [q for q in ('v', 'n', 'kn') if q in self.visible(ci) and q not in self.own[ci] and
+                    not isinstance(self.gov(ci, q)[1].default, str) and self.gov(ci, q)[1].default is not None]
+            if not cand:
+                return
+            q = cand[self.counter % len(cand)]
+            try:
+                if op.get('via') == 'setattr':
+                    setattr(self.classes[ci], q, param.String())
+                else:
+                    self.classes[ci].param.add_parameter(q, param.String())
+            except Exception:       # noqa
+                self.out.stats['reject.parameter_that_cannot_be_installed'] += 1
+                return
+            self.viol('C13.exception', f"a String Parameter overriding K{ci}.{q} (inherited default {self.gov(ci, q)[1].default!r}) was accepted")
         elif k == 'poison':
             # a class-level watcher vetoes a value (after looking at the namespace): the rejected class-level assignment must
             # leave nothing behind - in particular no copied Parameter in the namespace cache of an inheriting subclass
@@ -788,6 +807,8 @@ class _Run:
                 self.out.stats['reject.class_level_veto'] += 1
                 if any(c in self.cache_read for c in range(nc)):
                     self.probe['stale_risk'] = True
+                if kk == ci:
+                    pm.default = 'POISON'       # the class owns the Parameter: the value was stored before the watcher raised
                 return
             # nobody vetoed (e.g. the class owns a Parameter created after the watcher was installed): a plain class-level set
             if kk != ci:
